@@ -1,7 +1,7 @@
 (** Property C08 — the theorems the check counts as obligations.  Nothing but
     statements closed by [exact] and [Print Assumptions]. *)
 From HS Require Import Base.Prelude Base.PyLib C08.Model C08.Policies C08.PolicyThms C08.Pipeline C08.IndModel C08.IndThms
-  Gen.QueuePolicyGen C08.GenTie.
+  Gen.QueuePolicyGen C08.GenTie Gen.ConcurrencyGen C08.ConcTie.
 Local Open Scope Z_scope.
 
 (** Conservation, every policy, every worker kind, EVERY schedule (any pending
@@ -285,3 +285,39 @@ Example c08_code_priority_example :
     [OPush false (MkItem 1 5 0 0 0); OPush false (MkItem 2 3 0 0 0); OPush false (MkItem 3 5 0 0 0); OPush false (MkItem 4 3 0 0 0); OPop 0; OPop 0; OPop 0; OPop 0])
   = Some [(true, None, []); (true, None, []); (true, None, []); (true, None, []); (true, Some 2, []); (true, Some 4, []); (true, Some 1, []); (true, Some 3, [])].
 Proof. vm_compute. reflexivity. Qed.
+
+(* ---------------- code level: server/concurrency.py as regenerated by py2coq ---------------- *)
+
+(** FixedConcurrency, DynamicConcurrency and WeightedConcurrency of
+    components/server/concurrency.py, as REGENERATED from the source on every run
+    (Gen/ConcurrencyGen.v): every operation (acquire / release / has_capacity with any
+    weight, set_limit; scale_up / scale_down as set_limit) acts on the object exactly as
+    the model's [cm_step] acts on its abstraction [cm_of], with the same result (1 = True,
+    0 = False/None, 2 = ValueError). *)
+Theorem c08_code_concurrency_refines_model : forall c o cd k,
+  (cm_of (fst (code_cm_step c o)) = fst (cm_step (cm_of c) o) /\ snd (code_cm_step c o) = snd (cm_step (cm_of c) o))
+  /\ (cm_of (ODyn (fst (DynamicConcurrency_scale_up cd k)))
+        = fst (cm_step (cm_of (ODyn cd)) (CSetLimit (DynamicConcurrency__current_limit cd + k)))
+      /\ cm_of (ODyn (fst (DynamicConcurrency_scale_down cd k)))
+        = fst (cm_step (cm_of (ODyn cd)) (CSetLimit (DynamicConcurrency__current_limit cd - k)))).
+Proof. intros c o cd k. exact (conj (tie_cm_step c o) (tie_cm_scale cd k)). Qed.
+Print Assumptions c08_code_concurrency_refines_model.
+
+(** Work in service never exceeds the concurrency limit — for the classes AS TRANSLATED,
+    every sequence of acquire / release / has_capacity with any weights. *)
+Theorem c08_code_concurrency_bound : forall ops c,
+  Forall (fun o => match o with CSetLimit _ => False | _ => True end) ops ->
+  cm_ok (cm_of c) -> cm_ok (cm_of (code_cm_run c ops)).
+Proof. exact code_concurrency_bound. Qed.
+Print Assumptions c08_code_concurrency_bound.
+
+(** ... and across limit changes: a successful acquire of the translated classes never takes
+    the count above the limit in force and strictly increases it, a refused acquire changes
+    nothing, and has_capacity(w) answers exactly whether acquire(w) would succeed. *)
+Theorem c08_code_acquire_respects_limit : forall c w,
+  let '(c', r) := code_cm_step c (CAcquire w) in
+  (r = 1 -> cm_active (cm_of c') <= cm_limit (cm_of c') /\ cm_active (cm_of c) < cm_active (cm_of c')) /\
+  (r <> 1 -> cm_of c' = cm_of c) /\
+  (1 <= w -> (snd (code_cm_step c (CHasCap w)) = 1 <-> r = 1)).
+Proof. exact code_acquire_respects_limit. Qed.
+Print Assumptions c08_code_acquire_respects_limit.
